@@ -108,3 +108,8 @@ Definition check_routing (c : list evclass * evclass * Z) : bool :=
   let '(pe, cl, n) := c in deliveries pe cl =? n.
 Definition check_subscription (c : list evclass * list Z) : bool :=
   let '(pe, r) := c in zlist_eqb (map cls_idx (subscription_types pe)) r.
+
+(* pools added and removed at run time: envelopes of one event on the stdin of
+   the listener of pool p after the history l *)
+Definition check_world (c : list wop * evclass * Z * Z) : bool :=
+  let '(l, cl, p, n) := c in world_deliveries (wrun l) cl p =? n.
